@@ -22,8 +22,8 @@ pub fn generate(stream: &str, seed: u64, n: usize, emit: &mut dyn FnMut(String))
 		"c11" => de::generate_c11(seed, n, emit),
 		"skip" => de::generate_skip(seed, n, emit),
 		"de-alloc" => de::generate_alloc(seed, n, emit),
-		"ocfw" | "ocfw-sink" => ocf::generate_w(stream, seed, n, emit),
-		"ocfr" | "ocfr-null" | "ocfr-damage" | "ocfd" => ocf::generate_r(stream, seed, n, emit),
+		"ocfw" | "ocfw-sink" | "ocfw-big" => ocf::generate_w(stream, seed, n, emit),
+		"ocfr" | "ocfr-null" | "ocfr-big" | "ocfr-damage" | "ocfd" => ocf::generate_r(stream, seed, n, emit),
 		s if s.starts_with("de") => de::generate(stream, seed, n, emit),
 		_ => panic!("unknown stream {stream}"),
 	}
